@@ -530,6 +530,7 @@ package core
 //@   modifies mapof(self.contents), mapof(self.readCache), held(self.mutex)
 //@   effect cachecount self
 //@   effect lastcached self := name
+//@   effect lastcacheuq self := uniquifier
 //@   ensures @own self.uniquifier == uniquifier ==> forall k string :: has(self.contents, k) == (old(has(self.contents, k)) || k == name)
 //@   ensures @stale self.uniquifier != uniquifier ==> forall k string :: has(self.contents, k) == old(has(self.contents, k))
 
@@ -538,6 +539,7 @@ package core
 //@   ensures @split hasprefix(state, "split_") ==> ghost(cachecount)[old(self.split_metadata)] > old(ghost(cachecount)[self.split_metadata]) && ghost(lastcached)[old(self.split_metadata)] == state[6:]
 //@   ensures @join !hasprefix(state, "split_") && hasprefix(state, "join_") ==> ghost(cachecount)[old(self.join_metadata)] > old(ghost(cachecount)[self.join_metadata]) && ghost(lastcached)[old(self.join_metadata)] == state[5:]
 //@   ensures @fork !hasprefix(state, "split_") && !hasprefix(state, "join_") ==> ghost(cachecount)[old(self.metadata)] > old(ghost(cachecount)[self.metadata]) && ghost(lastcached)[old(self.metadata)] == state
+//@   ensures @sameattempt ghost(lastcacheuq)[hasprefix(state, "split_") ? old(self.split_metadata) : (hasprefix(state, "join_") ? old(self.join_metadata) : old(self.metadata))] == uniquifier
 //@   ensures @only forall m *core.Metadata :: ghost(cachecount)[m] != old(ghost(cachecount)[m]) ==> m == (hasprefix(state, "split_") ? old(self.split_metadata) : (hasprefix(state, "join_") ? old(self.join_metadata) : old(self.metadata)))
 
 // getFork returns one of the node's forks: by position when the index is a number in range, else the fork whose journal name ends in exactly that index.
@@ -552,6 +554,7 @@ package core
 
 //@ func core.Chunk.updateState property C11
 //@   ensures @routed ghost(cachecount)[old(self.metadata)] > old(ghost(cachecount)[self.metadata]) && ghost(lastcached)[old(self.metadata)] == state
+//@   ensures @sameattempt ghost(lastcacheuq)[old(self.metadata)] == uniquifier0
 //@   ensures @only forall m *core.Metadata :: ghost(cachecount)[m] != old(ghost(cachecount)[m]) ==> m == old(self.metadata)
 
 // find: a node answers to its fully qualified id, with or without the top-level prefix.
